@@ -3,6 +3,7 @@
 #include <algorithm>
 #include <cstddef>
 #include <cstdint>
+#include <cstdio>
 #include <iterator>
 #include <limits>
 #include <stdexcept>
@@ -108,6 +109,25 @@ public:
     const memory::Item* begin() const { return m_begin; }
     const memory::Item* end() const { return m_end; }
 };
+
+// N1: result of snprintf used unchecked, size argument larger than the buffer; N2: zeros trimmed without a fractional part
+template <typename T>
+inline T double2string(T iterator, double value, int precision) {
+    enum { max_double_length = 20 };
+    char buffer[max_double_length - 4];
+    int len = snprintf(buffer, max_double_length, "%.*f", precision, value);
+    while (buffer[len - 1] == '0') {
+        --len;
+    }
+    if (buffer[len - 1] == '.') {
+        --len;
+    }
+    return std::copy_n(buffer, len, iterator);
+}
+
+inline void double2string(std::string& out, double value, int precision) {
+    double2string(std::back_inserter(out), value, precision);
+}
 
 namespace geom {
 
